@@ -87,6 +87,12 @@ def all_attrs():
         names |= set(pub[:: max(1, len(pub) // 6)])
         for n in sorted(names):
             yield f"({o}).{n}", "attr", (cls_of(o),)
+    # the names of the `ignored_end_of_reference` option are only exempt where the attribute set is not fully
+    # known: on a class object whose attributes are all known (builtin, enum and dataclass classes) they are
+    # reported like any other missing name
+    for o in ("int", "str", "float", "bytes", "tuple", "E", "IE", "D"):
+        for n in ("count", "called", "reset_mock", "call_count", "nope"):
+            yield f"({o}).{n}", "attr", (cls_of(o),)
 
 
 def all_subscripts():
